@@ -357,10 +357,33 @@ func checkC10(c c10Case) error {
 		for k, v := range q.headers().Unprotected {
 			nu[k] = v
 		}
-		nu["added-later"] = int64(1)
+		// whatever the unprotected bucket holds - including things that cannot be serialised
+		// (yet): a countersignature holder attached before it is signed, a kid of the wrong type
+		switch variant := (len(c.W.Wire) + c.Sel) % 4; variant {
+		case 0:
+			nu["added-later"] = int64(1)
+		case 1:
+			nu[int64(11)] = []*cose.Countersignature{cose.NewCountersignature()}
+		case 2:
+			nu[int64(4)] = int64(5)
+		default:
+			nu = nil
+		}
+		stats.Class(fmt.Sprintf("mutation/unprotected/variant-%d", (len(c.W.Wire)+c.Sel)%4))
 		q.headers().Unprotected = nu
 		q.headers().RawUnprotected = nil
 		preserved = true
+		// signing over the edited parent hands the key the same bytes
+		spy2 := &bridge.SpySigner{Alg: cose.Algorithm(alg)}
+		if c.Abbrev {
+			_, err = cose.Countersign0(rnd, spy2, q.obj(c.Pointer), ext)
+		} else {
+			cs2 := &cose.Countersignature{Headers: cose.Headers{RawProtected: cs.Headers.RawProtected, Protected: cs.Headers.Protected, Unprotected: cs.Headers.Unprotected}}
+			err = cs2.Sign(rnd, spy2, q.obj(c.Pointer), ext)
+		}
+		if err != nil || !bytes.Equal(spy2.Last(), want) {
+			return finding("unprotected-matters", "%s: countersigning over the same parent with other unprotected headers fails or signs other bytes (err=%v)\n got=%x\nwant=%x", p.path, err, spy2.Last(), want)
+		}
 	case "protected-head-width":
 		q.headers().RawProtected = append(rc.Head(2, uint64(len(qr.BodyProt)), 8), qr.BodyProt...)
 		preserved = true
